@@ -954,6 +954,12 @@ class C09(PersistProfile):
     def config(self, r):
         c = PersistProfile.config(self, r)
         c["cross_module_refs"] = r.choice(["none", "backward", "backward"])
+        if r.random() < 0.35:
+            # table-centred runs: many lazily decoded tables naming few nodes, with nodes leaving
+            # and joining the IR between the reads (decode time relative to attach / detach)
+            c["weights"] = swarm_weights(r, {"new": 3.0, "setparent": 3.0, "setattr": 0.5, "aux": 12.0, "persist": 5.0, "peer": 1.5, "setop": 1.0}, keep=self.keep, off_p=0.1)
+            c["boot"] = r.choice([4, 8, 12])
+            c["kind_weights"] = {"ir": 0.8, "mod": 1.5, "sec": 0.6, "bi": 0.6, "cb": 0.8, "db": 0.5, "px": 0.5, "sym": 0.8}
         return c
 
     def nontrivial(self, w):
@@ -1028,8 +1034,9 @@ class C08(AuxProfile):
         "two-party setting: (a) every table gtirb writes to the simulated disk is decoded by the reference codec (written "
         "from AuxData.hpp) and must give the model value; for types without set/mapping the bytes must equal the reference "
         "encoding byte for byte; (b) every table the peer wrote (reference encoder, permuted element order, repeated "
-        "elements) is decoded by gtirb at a scheduled time and must give the model value. The Java codec is not run "
-        "(covered by reading only; see DESIGN.md). Non-trivial: >=1 table byte-compared or reference-decoded at a save and >=1 "
+        "elements) is decoded by gtirb at a scheduled time and must give the model value; (c) after the batch, the "
+        "repository's Java codecs (javac-built from the working tree) decode a sample of gtirb's tables and gtirb decodes "
+        "what they re-encode (coverage.java_stage). Non-trivial: >=1 table byte-compared or reference-decoded at a save and >=1 "
         "peer-written table read; distinct by op-kind sequence hash."
     )
 
